@@ -56,4 +56,5 @@ props! {
     "X04" => x04,
     "X05" => x05,
     "X02" => x02,
+    "X08" => x08,
 }
